@@ -239,7 +239,7 @@ type world struct {
 }
 
 func (w *world) logf(f string, a ...interface{}) { w.log = append(w.log, fmt.Sprintf(f, a...)) }
-func (w *world) text() string                   { return strings.Join(w.log, ";") }
+func (w *world) text() string                    { return strings.Join(w.log, ";") }
 
 func (w *world) commitReopen(t *rapid.T, flush, freshDB bool) {
 	var root common.Hash
@@ -364,7 +364,13 @@ func TestTrieModel(t *testing.T) {
 				fresh := flush && rapid.Bool().Draw(t, "freshdb")
 				w.logf("commit flush=%v fresh=%v", flush, fresh)
 				w.commitReopen(t, flush, fresh)
-				w.checkAll(t, w.tr, "after reopen")
+				// verify on ANOTHER instance opened from the same root: reading through w.tr would resolve every node and
+				// the history would never continue on a freshly reopened trie whose nodes are still unloaded hash nodes
+				if vt, err := trie.New(trie.TrieID(w.parent), w.tdb); err != nil {
+					ev.Violation(t, "reopen.error", w.text(), "second reopen by root %x failed: %v", w.parent, err)
+				} else {
+					w.checkAll(t, vt, "after reopen")
+				}
 				dirtySinceCommit = false
 			case op == 16: // copy and diverge
 				w.logf("copy")
